@@ -71,7 +71,7 @@ def config(m, extra_contracts=None):
     c = dict(CONTRACTS)
     if extra_contracts:
         c.update(extra_contracts)
-    return {"reportRegion": "data", "reportLimit": 384, "wsetResetAfter": common.sym(m, "make_failure_token").name, "track": 512, "fields": fields, "contracts": c, "maxPaths": 400000, "maxSteps": 60000000,
+    return {"reportRegion": "data", "reportLimit": 384, "wsetResetAfter": common.sym(m, "make_failure_token").name, "track": 512, "fields": fields, "contracts": c, "maxPaths": 400000, "maxSteps": 60000000, "maxWallSec": 900,
             "widenAfter": 3, "dedupe": True, "trackInit": True, "frameForkWiden": 0, "ptrWidenAfter": 40, "fmtForkMax": 24, "forkyLoop": 64}
 
 
